@@ -67,7 +67,9 @@ def oracle(ctx):
                                             model_output=b))
     # call site: every accepted value is passed unchanged after --expose, in order; otherwise an error quoting the value
     rnd = ctx.rnd
-    pool_ok = ['80', '8080-8090', '53/udp', '1-2/tcp', '0']
+    # accepted means accepted by its *form*: a range whose first port is the larger one, ports beyond 65535 or beyond 32 bits, leading
+    # zeros — all of them are `port[-port][/tcp|/udp]`
+    pool_ok = ['80', '8080-8090', '53/udp', '1-2/tcp', '0', '3000-2000', '10-9/udp', '65535-1', '0100-99', '70000', '99999999999-1/tcp', '0-0', '007']
     pool_bad = ['/tcp', '-5', '1-/udp', '80/sctp', 'http', '80 90', '80,90', '']
     cases = []
     for _ in range(400 if ctx.thorough else 120):
